@@ -5,6 +5,7 @@ import (
 	"verif/seq"
 
 	_ "verif/checks/s08"
+	_ "verif/checks/s09"
 	_ "verif/checks/s11"
 )
 
